@@ -246,6 +246,16 @@ def loop_parser_shapes(lp, parser='self', buf='buf'):
             lambda E, k=k: parser_field_specs(E['src'])[k])
     lp.shapes['%s.parms.lang_context' % parser] = \
         lambda E: cm.LangSettingsS()
+
+    def flows_grow(E, parser=parser):
+        old = E['$args'].get('old') if '$args' in E else None
+        if not old or 'nflows0' not in old:
+            return True
+        o = E[parser.split('.')[0]]
+        for f in parser.split('.')[1:]:
+            o = o.fields[f]
+        return zint(o.fields['extracted'].length()) >= zint(old['nflows0'])
+    lp.invs.append(('flows-only-grow', flows_grow))
     if buf:
         lp.shapes['%s.tokens' % buf] = lambda E: tm.DocList(E['src'])
 
